@@ -509,10 +509,23 @@ def integrated_case(draw):
             'schedule': t['schedule'], 'third': draw(st.sampled_from([None, 'neg', 'neg', 'flip-top', 'low31', 'swap16']))}
 
 
+def related_checksum_cases(tier):
+    """a writable cache filled by one firmware, then a device with other tables whose checksums are bit-level relatives of the cached ones
+    (negated, top bit flipped, low 31 bits, halves swapped) - enumerated over checksums with and without the top bit set"""
+    for k, (lc, pc) in enumerate(((0xA112EDCC, 0xC0FFEE11), (0x80000000, 0x80000001), (0xFFFFFFFF, 0xFFFFFFFE), (0x1234ABCD, 0x0BADF00D), (0x00010002, 0x7FFFFFFF))):
+        for third in ('neg', 'flip-top', 'low31', 'swap16'):
+            for (nlog, nparam, v) in ((1, 0, 4), (0, 1, 4), (2, 3, 10)):
+                t = {'version': v, 'nlog': nlog, 'nparam': nparam, 'glen': [1], 'nlen': [2], 'tshift': k, 'log_crc': lc, 'param_crc': pc,
+                     'needs_resending': False, 'delays': [0.001], 'cache': True, 'schedule': {'prefix': [], 'seed': k, 'rate': 0.0}, 'extmod': 5,
+                     'burst': [], 'latedup': {}, 'notify': [], 'second': None, 'cut': None}
+                yield {'toc': t, 'collide': False, 'damage': {'kind': 'none'}, 'mode': 'rw', 'schedule': t['schedule'], 'third': third}
+
+
 def subchecks(tier):
     return [
         Sub('direct', run_direct, strategy=direct_case(), examples={'quick': 120, 'thorough': 4000}),
         Sub('integrated', run_integrated, strategy=integrated_case(), examples={'quick': 150, 'thorough': 6000}),
+        Sub('related-checksums', run_integrated, cases=related_checksum_cases, distinct_by_construction=True),
         Sub('concurrent-inserts', run_concurrent, cases=concurrent_cases, distinct_by_construction=True, shardable=True),
         Sub('concurrent-inserts-random', run_concurrent, strategy=concurrent_case(), examples={'quick': 60, 'thorough': 3000}),
     ]
